@@ -77,6 +77,7 @@ var completePool = []poolEntry{
 	{"inet", "other", `(make-inet-address "127.0.0.1")`, "inet address"},
 	{"inet6", "other", `(make-inet6-address "::1")`, "inet6 address"},
 	{"dstr", "other", "(make-array 3 :element-type 'character :fill-pointer 2 :adjustable t :initial-element #\\a)", "adjustable string with a fill pointer"},
+	{"esym", "other", "", "the symbol whose name is the empty string (built in Go; read as ||)"},
 }
 
 func init() {
